@@ -163,10 +163,16 @@ impl Monitor for C20 {
                     // swaps before the trade-enable time are refused by the program regardless of the quote
                     let enabled = oracle.map(|o| o.trade_enable_timestamp <= now).unwrap_or(true);
                     // the SDK panics are failures of the SDK
-                    let r = crate::rt::guarded((|| sdk::compute_swap(a.amount_for_curve(pre, &pool, ev.clock.epoch), a.limit, pool_facade(&pool), ts, a.a_to_b, a.is_input, now, adaptive)));
+                    // ... and an SDK that does not come back at all (a loop that never ends) is one too
+                    let (amt_c, lim_c, pf_c, atb_c, inp_c) = (a.amount_for_curve(pre, &pool, ev.clock.epoch), a.limit, pool_facade(&pool), a.a_to_b, a.is_input);
+                    let r = crate::rt::guarded_with_deadline(20, move || sdk::compute_swap(amt_c, lim_c, pf_c, ts, atb_c, inp_c, now, adaptive));
                     let r = match r {
                         Ok(x) => x,
-                        Err(_) => Err("SDK panicked"),
+                        Err(Some(())) => Err("SDK panicked"),
+                        Err(None) => {
+                            out.push(viol("sdk_does_not_return", ev.idx, format!("{} ({} {} amount {} limit {}): the SDK's compute_swap has not returned after 20 seconds (the program {})", name, if a.a_to_b { "a_to_b" } else { "b_to_a" }, if a.is_input { "exact-in" } else { "exact-out" }, a.amount, a.limit, if post.is_some() { "executed the swap" } else { "refused it" })));
+                            return out;
+                        }
                     };
                     cov.eval(format!("{}|{}|{}|program_ok={}|sdk_ok={}|adaptive={}|complete={}|limit={}", name, if a.a_to_b { "a2b" } else { "b2a" }, if a.is_input { "in" } else { "out" }, post.is_some(), r.is_ok(), adaptive.is_some(), complete, a.limit != 0));
                     if let (Some(post), Some(io)) = (post, io) {
